@@ -15,7 +15,7 @@ racefile="$work/race.json"
 if [[ " $* " != *" -replay "* ]]; then
   if go build $VERIF_MODFLAG -race -tags verif -overlay "$work/free/overlay.json" -o "$work/h_free" ./checks/c19 2> "$work/build_free.log"; then
     iters=1; [ "$tier" = thorough ] && iters=3
-    GORACE="halt_on_error=1 exitcode=66" VERIF_FREE_ITERS=$iters timeout 900 "$work/h_free" -mode free > "$work/free.out" 2> "$work/free.err"
+    GORACE="halt_on_error=1 exitcode=66" VERIF_FREE_ITERS=$iters timeout 2400 "$work/h_free" -mode free > "$work/free.out" 2> "$work/free.err"
     frc=$?
     python3 - "$racefile" "$frc" "$work/free.out" "$work/free.err" <<'PY'
 import json,sys
